@@ -10,7 +10,7 @@ RULE = ('pop-on streams of 1-6 captions (drop / non-drop timecode, single / doub
         'frame fields up to :29 with long lines carrying past it; offsets 0, 1, 2, 3600, 0.5, 2.5, 7.25 s, streams that begin '
         'before the offset so that instants are floored at zero) read with '
         'SCCReader.read(offset=...). A sequential reference model in Fraction computes every start / end; '
-        '1 us tolerance. Non-trivial: >= 2 captions, a non-zero offset or an inline EDM.')
+        '1 us tolerance. Also: loads that load nothing, loads of over a hundred words across a minute / hour of timecode, reader objects used before. Non-trivial: >= 2 captions, a non-zero offset or an inline EDM.')
 ANCHORS = ['pycaption.scc:SCCReader._translate_word', 'pycaption.scc:_SccTimeTranslator.get_time',
            'pycaption.scc:_SccTimeTranslator._translate_time', 'pycaption.scc:SCCReader._translate_command',
            'pycaption.scc:SCCReader._pop_on',
